@@ -92,13 +92,11 @@ def aggSig (q : AggQ) (ordered : Bool) (m s : Res) : String :=
   match s with
   | .error "type" => "agg-non-number-summed"
   | _ =>
-    if hasCountStar q then "agg-count-star-syntax-error"
-    else
-      let m' := resMapRows (toReturnOrder q.items) m
-      if sh m' == sh s then "agg-key-columns-first"
-      else if q.items.any itemHasMinMax then "agg-min-max-string-or-mixed"
-      else if q.items.any itemIsSumAvg then "agg-sum-avg-float-accumulation"
-      else "agg-differs"
+    let m' := resMapRows (toReturnOrder q.items) m
+    if sh m' == sh s then "agg-key-columns-first"
+    else if q.items.any itemHasMinMax then "agg-min-max-numeric-text"
+    else if q.items.any itemIsSumAvg then "agg-avg-double-rounding"
+    else "agg-differs"
 
 def parseOrderKey (s : String) : Option (Option (Nat × Bool)) :=
   if s == "-" then some none
@@ -118,8 +116,8 @@ def gremSig (q : GremQ) (s : Res) : String :=
   match s with
   | .error "type" => "agg-non-number-summed"
   | _ =>
-    if q.proj.isSome && (match q.agg with | some .min => true | some .max => true | _ => false) then "agg-min-max-string-or-mixed"
-    else if q.proj.isSome then "gremlin-values-keeps-missing"
+    if q.proj.isSome && (match q.agg with | some .min => true | some .max => true | _ => false) then "agg-min-max-numeric-text"
+    else if q.proj.isSome && (match q.agg with | some .mean => true | _ => false) then "agg-avg-double-rounding"
     else "gremlin-differs"
 
 def mkOut (ordered : Bool) (m s : Res) (sig : Unit → String) : Proto.Out :=
@@ -153,10 +151,11 @@ def handle (args : List String) : Option Proto.Out :=
     let q : GqlQ := { label := ← label.toNat?, hops := ← parseList parseHop hops, preds := ← parseList parsePred preds,
                       cols := ← parseList parseVK cols, order := ← parseOrderKey order,
                       skip := ← optNat skip, first := ← optNat first }
-    let ordered := q.order.isSome
+    -- rows of one root object tie on the sort key: compare as a set when there are hops
+    let ordered := q.order.isSome && q.hops.isEmpty
     let m := Pipe.execGraphql g q
     let s := Spec.evalGraphql g q
-    pure (mkOut ordered m s (fun _ => if q.order.isSome then "graphql-orderby-fails" else "graphql-differs"))
+    pure (mkOut ordered m s (fun _ => "graphql-differs"))
   -- the same question in the four languages: `label`-scan, outgoing typed hops, comparisons,
   -- one property of the last vertex; four answers `gql/cypher/gremlin/graphql`
   | ["cross", nodes, edges, label, hops, preds, key] => do
@@ -174,7 +173,7 @@ def handle (args : List String) : Option Proto.Out :=
     let m := joinWith "/" [core, core, showRes false (Pipe.execGremlin g gq), showRes false (Pipe.execGraphql g lq)]
     let sc := showRows false (Spec.eval g cq)
     let s := joinWith "/" [sc, sc, showRes false (Spec.evalGremlin g gq), showRes false (Spec.evalGraphql g lq)]
-    pure { model := m, spec := s, sig := if m == s then "-" else "gremlin-values-keeps-missing" }
+    pure { model := m, spec := s, sig := if m == s then "-" else "cross-language-differs" }
   | ["gqlstar", nodes, edges, label, t1, t2] => do
     let g : Graph := ⟨← parseList parseNode nodes, ← parseList parseEdge edges⟩
     let m := Pipe.execStar g (← label.toNat?) (← t1.toNat?) (← t2.toNat?)
